@@ -1,0 +1,174 @@
+//! Verification façade, only compiled with `--features verif`.
+//!
+//! Nothing in here changes the behaviour of the engine: it only exposes what an external
+//! harness needs in order to drive the *real* operators in-process with scripted inputs
+//! (scripted upstream operator, a fake single-replica network, access to the operator chain of
+//! a stream built through the public API).
+
+use std::any::TypeId;
+use std::collections::VecDeque;
+use std::fmt::Display;
+
+use crate::block::{BlockStructure, OperatorStructure, Replication};
+use crate::network::{NetworkMessage, NetworkReceiver, NetworkSender, NetworkTopology};
+use crate::network::ReceiverEndpoint;
+use crate::operator::source::Source;
+use crate::operator::{Data, ExchangeData, Operator, StreamElement};
+use crate::scheduler::ExecutionMetadata;
+use crate::stream::{KeyedItem, KeyedStream, Stream};
+use crate::{BatchMode, CoordUInt, RuntimeConfig};
+
+pub use crate::network::Coord;
+
+/// An operator (usable as a source) that replays a scripted list of `StreamElement`s and then
+/// yields `Terminate` forever.
+#[derive(Debug, Clone)]
+pub struct ScriptOp<Out: Data> {
+    buffer: VecDeque<StreamElement<Out>>,
+    replication: Replication,
+}
+
+impl<Out: Data> ScriptOp<Out> {
+    pub fn new(script: Vec<StreamElement<Out>>) -> Self {
+        Self {
+            buffer: script.into(),
+            replication: Replication::Unlimited,
+        }
+    }
+
+    pub fn with_replication(mut self, replication: Replication) -> Self {
+        self.replication = replication;
+        self
+    }
+}
+
+impl<Out: Data> Display for ScriptOp<Out> {
+    fn fmt(&self, f: &mut std::fmt::Formatter<'_>) -> std::fmt::Result {
+        write!(f, "ScriptOp<{}>", std::any::type_name::<Out>())
+    }
+}
+
+impl<Out: Data> Operator for ScriptOp<Out> {
+    type Out = Out;
+
+    fn setup(&mut self, _metadata: &mut ExecutionMetadata) {}
+
+    fn next(&mut self) -> StreamElement<Out> {
+        self.buffer.pop_front().unwrap_or(StreamElement::Terminate)
+    }
+
+    fn structure(&self) -> BlockStructure {
+        BlockStructure::default().add_operator(OperatorStructure::new::<Out, _>("ScriptOp"))
+    }
+}
+
+impl<Out: Data> Source for ScriptOp<Out> {
+    fn replication(&self) -> Replication {
+        self.replication
+    }
+}
+
+/// Take the operator chain of the last block of a stream out of it. The stream is consumed and
+/// its last block is never scheduled.
+pub fn take_ops<Op: Operator>(stream: Stream<Op>) -> Op {
+    stream.block.operators
+}
+
+/// Same as [`take_ops`] for keyed streams.
+pub fn take_ops_keyed<Op: Operator>(stream: KeyedStream<Op>) -> Op
+where
+    Op::Out: KeyedItem,
+{
+    stream.0.block.operators
+}
+
+/// The id of the last block of the stream.
+pub fn block_id<Op: Operator>(stream: &Stream<Op>) -> CoordUInt {
+    stream.block.id
+}
+
+/// A sender attached to a [`FakeNet`], pretending to be the replica `from`.
+pub struct FakeSender<T: ExchangeData> {
+    pub from: Coord,
+    sender: NetworkSender<T>,
+}
+
+impl<T: ExchangeData> FakeSender<T> {
+    /// Send a batch, blocking if the (bounded) channel is full. Returns false if disconnected.
+    pub fn send(&self, batch: Vec<StreamElement<T>>) -> bool {
+        self.sender
+            .send(NetworkMessage::new_batch(batch, self.from))
+            .is_ok()
+    }
+}
+
+/// A receiver attached to a [`FakeNet`], pretending to be the replica `to`.
+pub struct FakeReceiver<T: ExchangeData> {
+    pub to: Coord,
+    receiver: NetworkReceiver<T>,
+}
+
+impl<T: ExchangeData> FakeReceiver<T> {
+    /// Receive without blocking: the sender coordinate and the batch content.
+    pub fn try_recv(&self) -> Option<(Coord, Vec<StreamElement<T>>)> {
+        self.receiver
+            .try_recv()
+            .ok()
+            .map(|m| (m.sender(), m.into_iter().collect()))
+    }
+}
+
+/// A fake network around a single replica `me`, made of in-memory channels only.
+pub struct FakeNet {
+    topology: NetworkTopology,
+    me: Coord,
+}
+
+impl FakeNet {
+    pub fn new(me: Coord) -> Self {
+        let config = RuntimeConfig::local(1).unwrap();
+        Self {
+            topology: NetworkTopology::new(config),
+            me,
+        }
+    }
+
+    /// Register `from` as an upstream replica of `me` (element type `T`).
+    pub fn add_prev<T: ExchangeData>(&mut self, from: Coord) -> FakeSender<T> {
+        self.topology
+            .connect(from, self.me, TypeId::of::<T>(), false);
+        let sender = self
+            .topology
+            .get_sender(ReceiverEndpoint::new(self.me, from.block_id));
+        FakeSender { from, sender }
+    }
+
+    /// Register `to` as a downstream replica of `me` (element type `T`) and take its receiver.
+    pub fn add_next<T: ExchangeData>(&mut self, to: Coord, fragile: bool) -> FakeReceiver<T> {
+        self.topology
+            .connect(self.me, to, TypeId::of::<T>(), fragile);
+        let receiver = self
+            .topology
+            .get_receiver(ReceiverEndpoint::new(to, self.me.block_id));
+        FakeReceiver { to, receiver }
+    }
+
+    /// Build the `ExecutionMetadata` of `me` and run `f` with it (typically `op.setup(meta)`).
+    pub fn with_metadata<R>(
+        &mut self,
+        replicas: Vec<Coord>,
+        global_id: CoordUInt,
+        batch_mode: BatchMode,
+        f: impl FnOnce(&mut ExecutionMetadata) -> R,
+    ) -> R {
+        let mut metadata = ExecutionMetadata {
+            coord: self.me,
+            replicas,
+            global_id,
+            prev: self.topology.prev(self.me),
+            network: &mut self.topology,
+            batch_mode,
+        };
+        f(&mut metadata)
+    }
+}
